@@ -2,6 +2,12 @@
 // failure faithfully (fails <=> at least one critical error; positions inside the input).
 // Each call runs in a forked child under ASan/UBSan with an alarm: a crash, sanitizer abort,
 // escaped exception or timeout is the observation `fault:<kind>`.
+// Ops:  c04 <entry> <class> <hint> <hexText> -> 1 | 0:<why>[+position-out-of-range] | fault:<kind>   (verdict, model `skip`)
+//       c04 lexpos <syn> <hexText>           -> <ranges> err=<p|none> fails=<0|1> inrange=<0|1>
+//         ranges `lo:hi` of the real lexer's tokens up to and including the first INTERRUPT (`I`) / END (`E`),
+//         position of the first `unknownSymbol` error logged by Parse, verdict of Parse, and the harness' own
+//         check that the ranges are ordered and inside the text (compared with the lexer / parser MODEL on
+//         which Properties/C04.lean proves lex_tiles_input, lex_first_error, lex_error_fails_parse)
 #include "common.hpp"
 #include "frag.hpp"
 #include "verif_seed.hpp"
@@ -18,6 +24,7 @@
 #include "ccl/lang/EntityTermContext.hpp"
 #include "pyconcept.cpp"   // the seven functions behind the Python binding (pybind11 stubbed)
 #include <algorithm>
+#include <optional>
 
 using namespace ccl;
 using namespace ccl::semantic;
@@ -33,6 +40,78 @@ static std::string verdict(bool ok, const rslang::ErrorLogger& log, const std::s
   // ok=1 with critical errors, or ok=0 without, is unfaithful
   const bool faithful = ok ? critical == 0 : critical > 0;
   return std::string(faithful ? "1" : (ok ? "0:accepted-with-critical" : "0:failed-silently")) + (posOk ? "" : "+position-out-of-range");
+}
+
+// strict UTF-8 (the MATH lexer model works on code points; anything else is outside the model)
+static bool validUtf8(const std::string& s) {
+  size_t i = 0; const size_t n = s.size();
+  auto cont = [&](size_t k) { return k < n && (static_cast<unsigned char>(s[k]) & 0xC0) == 0x80; };
+  while (i < n) {
+    const unsigned b = static_cast<unsigned char>(s[i]);
+    if (b < 0x80) { i += 1; }
+    else if (b >= 0xC2 && b < 0xE0) { if (!cont(i + 1)) return false; i += 2; }
+    else if (b >= 0xE0 && b < 0xF0) {
+      if (!cont(i + 1) || !cont(i + 2)) return false;
+      const unsigned cp = ((b - 0xE0) << 12) | ((static_cast<unsigned char>(s[i + 1]) & 0x3F) << 6) | (static_cast<unsigned char>(s[i + 2]) & 0x3F);
+      if (cp < 0x800 || (cp >= 0xD800 && cp < 0xE000)) return false;
+      i += 3;
+    } else if (b >= 0xF0 && b < 0xF5) {
+      if (!cont(i + 1) || !cont(i + 2) || !cont(i + 3)) return false;
+      const unsigned cp = ((b - 0xF0) << 18) | ((static_cast<unsigned char>(s[i + 1]) & 0x3F) << 12) | ((static_cast<unsigned char>(s[i + 2]) & 0x3F) << 6) | (static_cast<unsigned char>(s[i + 3]) & 0x3F);
+      if (cp < 0x10000 || cp >= 0x110000) return false;
+      i += 4;
+    } else return false;
+  }
+  return true;
+}
+
+static std::string lexpos(const std::string& text, rslang::Syntax syn) {
+  using rslang::TokenID;
+  const bool ascii = syn == rslang::Syntax::ASCII;
+  const bool exact = ascii || validUtf8(text);
+  const StrPos n = ascii ? static_cast<StrPos>(text.size())
+                         : (exact ? SizeInCodePoints(text) : std::max(SizeInCodePoints(text), static_cast<StrPos>(text.size())));
+  rslang::Parser lx{};
+  auto stream = lx.Lex(text, syn);
+  std::string ranges; bool in = true; StrPos prevHi = 0; std::optional<StrPos> interruptAt{};
+  for (int i = 0; i < 100000; ++i) {
+    const auto t = stream();
+    if (i) ranges += ',';
+    if (t.id == TokenID::INTERRUPT) ranges += 'I';
+    if (t.id == TokenID::END) ranges += 'E';
+    ranges += std::to_string(t.pos.start) + ":" + std::to_string(t.pos.finish);
+    if (t.pos.start < 0 || t.pos.start > t.pos.finish || t.pos.finish > n) in = false;
+    if (i && t.pos.start < prevHi) in = false;
+    prevHi = t.pos.finish;
+    if (t.id == TokenID::END) { if (exact && (t.pos.start != n || t.pos.finish != n)) in = false; break; }
+    if (t.id == TokenID::INTERRUPT) { interruptAt = t.pos.start; if (t.pos.start >= n) in = false; break; }
+  }
+  // what LexerBase::Stream reported while the tokens were pulled (the lexers of `lx` log into lx.log)
+  std::optional<StrPos> err{};
+  for (const auto& e : lx.Errors().All()) {
+    if (e.eid == static_cast<uint32_t>(rslang::LexerEID::unknownSymbol)) { err = e.position; break; }
+  }
+  if (err.has_value() != interruptAt.has_value()) in = false;          // reported iff the stream has an INTERRUPT
+  if (err.has_value() && interruptAt.has_value() && err.value() != interruptAt.value()) in = false;
+  if (err.has_value() && (err.value() < 0 || err.value() >= n)) in = false;
+  // the whole Parse: the parser may stop at a syntax error before it pulls the INTERRUPT token; when it
+  // does report the unknown symbol, it is that position
+  rslang::Parser p{};
+  const bool ok = p.Parse(text, syn);
+  for (const auto& e : p.Errors().All()) {
+    if (e.eid == static_cast<uint32_t>(rslang::LexerEID::unknownSymbol) && (!interruptAt.has_value() || e.position != interruptAt.value())) in = false;
+  }
+  return ranges + " err=" + (err.has_value() ? std::to_string(err.value()) : std::string("none"))
+    + " fails=" + (ok ? "0" : "1") + " inrange=" + (in ? "1" : "0");
+}
+
+static void lexposOps(const std::string& text) {
+  if (text.size() > 400) return;   // the deep-nesting class is for the implementation only
+  // one child for both syntaxes (a fault is reported on both lines)
+  const auto both = vh::forked([&] { return lexpos(text, rslang::Syntax::MATH) + "\x1f" + lexpos(text, rslang::Syntax::ASCII); }, 20);
+  const auto cut = both.find('\x1f');
+  emit("c04 lexpos math " + hex(text), cut == std::string::npos ? both : both.substr(0, cut));
+  emit("c04 lexpos ascii " + hex(text), cut == std::string::npos ? both : both.substr(cut + 1));
 }
 
 struct World {
@@ -72,7 +151,8 @@ static void build(World& w) {
 // ---------------------------------------------------------------- inputs
 static std::string tokenSoup(vh::Rng& rng, int n) {
   static const std::vector<std::string> toks = {
-    "X1", "X2", "C1", "S1", "D1", "D2", "F1", "P1", "A1", "T1", "R1", "a", "b", "\xCE\xBE", "\xCE\xB1", "1", "0", "2147483647", "99999999999",
+    "X1", "X2", "C1", "S1", "D1", "D2", "F1", "P1", "A1", "T1", "R1", "a", "b", "\xCE\xBE", "\xCE\xB1", "1", "0", "2147483647", "99999999999", "9223372036854775807", "9223372036854775808", "18446744073709551616", "123456789012345678901234567890",
+    "pr99999999999999999999", "Pr9223372036854775808", "Fi18446744073709551616", "00000000000000000000000001",
     "+", "-", "*", "=", "<", ">", "\xE2\x89\xA0", "\xE2\x88\x88", "\xE2\x88\x89", "\xE2\x8A\x86", "\xE2\x8A\x82", "\xE2\x88\xAA", "\xE2\x88\xA9", "\\", "\xE2\x88\x86", "\xC3\x97", "\xE2\x84\xAC",
     "\xE2\x88\x80", "\xE2\x88\x83", "\xC2\xAC", "&", "\xE2\x88\xA8", "\xE2\x87\x92", "\xE2\x87\x94", "(", ")", "{", "}", "[", "]", "|", ",", ";", ":=", ":==", "::=", ":\xE2\x88\x88",
     "pr1", "pr0", "Pr1,2", "Pr0", "Fi1", "Fi0", "card", "bool", "debool", "red", "D", "R", "I", "Z", "\xE2\x88\x85", " ", "\n", "\t",
@@ -82,7 +162,7 @@ static std::string tokenSoup(vh::Rng& rng, int n) {
   return s;
 }
 static std::string nesting(vh::Rng& rng) {
-  const int depth = rng.range(50, 3000);
+  const int depth = rng.range(50, vh::thorough() ? 3000 : 700);
   const int kind = rng.range(0, 3);
   std::string s;
   if (kind == 0) { for (int i = 0; i < depth; ++i) s += "("; s += "X1"; for (int i = 0; i < depth; ++i) s += ")"; }
@@ -101,6 +181,7 @@ static const std::vector<std::string>& structured() {
   static const std::vector<std::string> v = {
     "X1", "X1" + UNION + "D1", "D{" + XI + IN + "X1 | " + XI + IN + "D1}", "\xE2\x88\x80" + XI + IN + "X1 " + XI + "=" + XI, "F1[X1]", "P1[X1]", "A1", "A1+1", "A1=A1", "{A1}",
     "A1" + UNION + "X1", "card(A1)", "\xE2\x88\x85", "pr0(S1)", "Pr0(S1)", "Fi0[X1](S1)", "I{1 | a:" + IN + "X1}", "2147483647+1", "debool(X1)", "red(S1)",
+    "9223372036854775808", "X1=99999999999999999999", "pr99999999999999999999(S1)", "Fi99999999999999999999[X1](S1)", "{18446744073709551616}",
     "R{" + XI + ":=0 | " + XI + "+1}", "card(" + BOOL + BOOL + "(X1\xC3\x97X1\xC3\x97X1))", "[\xCE\xB1" + IN + "X1] A1", "S7::=S1", "D3:==", "1=1 & A1", "Fi1[zz](\xE2\x88\x85)", "X1 \\union X2", "a \\ls b" };
   return v;
 }
@@ -185,7 +266,10 @@ int main() {
   ccl::verif::Seed(5U);
   World w; build(w);
   // corpus: inputs that crashed or failed silently before the fix: commits
-  for (const auto& s : structured()) for (int h = 0; h < 3; ++h) exprEntryPoints(w, s, h, "corpus");
+  for (const auto& s : structured()) { for (int h = 0; h < 3; ++h) exprEntryPoints(w, s, h, "corpus"); lexposOps(s); }
+  // fixed lexer position cases: blanks / tabs / newlines / CR before an unknown symbol, multi-byte symbols, empty text
+  for (const std::string s : { "", " ", "a @b", "a\n\t @", "\r", "a\r\nb", "\xE2\x88\x80\xCE\xB1\xE2\x88\x88X1 \xCE\xB1=\xCE\xB1\n& a=#", "X1 \\union #", "\xFF", "\xCE", "12,3", "pr1,2,", "Fi1,2[a](b)$" })
+    lexposOps(s);
   const int N = deep ? 4000 : 350;
   for (int i = 0; i < N; ++i) {
     const int r = rng.range(0, 99);
@@ -196,6 +280,7 @@ int main() {
     else if (r < 80) { text = nesting(rng); cls = "nest"; }
     else { text = rng.pick(structured()) + tokenSoup(rng, rng.range(0, 2)); cls = "struct"; }
     exprEntryPoints(w, text, rng.range(0, 2), cls);
+    lexposOps(text);
   }
   // reference texts
   {
